@@ -115,11 +115,16 @@ Definition get_output_buffer (out_limit : option N) (parent : buffer) : buffer :
 
     The buffers in use during a render form a stack: the root buffer, on top of
     it the buffers of the [capture] blocks / [block.super] evaluations / blank
-    blocks that are being rendered. Text is always written to the innermost one. *)
+    blocks that are being rendered. Text is always written to the innermost one;
+    a new child buffer takes its carry from the buffer it is opened on. *)
 
 Inductive bop :=
 | Write (s : str)      (* buffer.write(s) on the innermost buffer *)
-| OpenChild            (* buf = context.get_output_buffer(buffer) *)
+| OpenChild (k : nat)  (* buf = context.get_output_buffer(buffer), where [buffer] is the
+                          k-th buffer from the innermost one: 0 for capture (the buffer
+                          the tag is rendering to); block.super passes the buffer its
+                          block tag was rendered to, which may lie deeper (e.g. when
+                          {{ block.super }} is evaluated inside a capture) *)
 | OpenNull             (* buf = NullIO()  (blank block suppression) *)
 | Close                (* block done: v = buf.getvalue(); v is kept (captured variable) *)
 | CloseWrite.          (* block done: v = buf.getvalue(); then v is written to the
@@ -146,9 +151,13 @@ Definition bstep (ol : option N) (s : bstate) (o : bop) : res unit * bstate :=
   | Write t =>
       let (r, b) := write (top s) t in
       (r, {| top := b; below := below s; closed := closed s |})
-  | OpenChild =>
-      (Ok tt, {| top := get_output_buffer ol (top s); below := top s :: below s;
-                 closed := closed s |})
+  | OpenChild k =>
+      match nth_error (top s :: below s) k with
+      | Some p =>
+          (Ok tt, {| top := get_output_buffer ol p; below := top s :: below s;
+                     closed := closed s |})
+      | None => (PyExc OtherPyError, s)   (* no such buffer: not a Python execution *)
+      end
   | OpenNull =>
       (Ok tt, {| top := Null; below := top s :: below s; closed := closed s |})
   | Close =>
